@@ -30,7 +30,7 @@ Local Open Scope nat_scope.
 (* ---------------------------------------------------------------------------------------- *)
 (* the specification: occurrences with their role                                            *)
 
-Notation occ := HoverProofs.occ.                 (* not the role-classified occurrences of Model/SemTok.v *)
+Local Notation occ := HoverProofs.occ.                 (* not the role-classified occurrences of Model/SemTok.v *)
 Definition rocc := (occ * bool)%type.          (* (token index, spelling, scope), declaring? *)
 
 Definition uses (l : list occ) : list rocc := map (fun o => (o, false)) l.
@@ -527,6 +527,30 @@ Qed.
 (* ---------------------------------------------------------------------------------------- *)
 (* the classification of every identifier occurrence                                         *)
 
+Lemma roles_params_occs D l o dcl :
+  In (o, dcl) (flat_map (fun x => roles_paramdecl (D + snd x) (fst x)) l) -> In o (occs_params D l).
+Proof.
+  intros H. apply (in_map fst) in H. rewrite map_flat_map in H. cbn [fst] in H. unfold occs_params.
+  erewrite flat_map_ext; [exact H|]. intros [q off]. symmetry. apply fst_roles_paramdecl.
+Qed.
+
+Lemma roles_vars_occs D l o dcl :
+  In (o, dcl) (flat_map (fun x => roles_vardecl (D + snd x) (fst x)) l) -> In o (occs_vars D l).
+Proof.
+  intros H. apply (in_map fst) in H. rewrite map_flat_map in H. cbn [fst] in H. unfold occs_vars.
+  erewrite flat_map_ext; [exact H|]. intros [q off]. symmetry. apply fst_roles_vardecl.
+Qed.
+
+Lemma uses_in l o dcl : In (o, dcl) (uses l) -> In o l /\ dcl = false.
+Proof. unfold uses. intros H. apply in_map_iff in H as [o' [Heq H]]. injection Heq as -> <-. now split. Qed.
+
+Lemma declares_in l o dcl : In (o, dcl) (declares l) -> In o l /\ dcl = true.
+Proof. unfold declares. intros H. apply in_map_iff in H as [o' [Heq H]]. injection Heq as -> <-. now split. Qed.
+
+(* every occurrence of a located list has a token index at or behind the base *)
+Lemma located_ge seg base l o : located seg base l -> In o l -> base <= o_tok o.
+Proof. unfold located. rewrite Forall_forall. intros H Ho. destruct (H o Ho) as [j [Hj _]]. lia. Qed.
+
 Lemma type_decl_shape c1 c2 x c3 t c4 :
   fl_decl (DType c1 c2 x c3 t c4) = (cm c1 ++ KType :: cm c2 ++ Ident x :: cm c3 ++ [EqT]) ++ fl_type t ++ (cm c4 ++ [Semic]).
 Proof. cbn [fl_decl]. listeq. Qed.
@@ -583,5 +607,187 @@ Proof.
       destruct (Nat.eqb_spec (len c1 + 1 + len c2) (o_t + j')); [unfold o_t in *; lia|].
       now rewrite (Hkind (o_t + j') x ltac:(lia) Hjn).
   - (* a procedure declaration *)
-    admit.
-Admitted.
+    set (dd := DProc c1 c2 xn c3 ps c4 c5 vs b c6) in *.
+    set (o_ps := len c1 + 1 + len c2 + 1 + len c3 + 1).
+    set (o_vs := o_ps + len (fl_sep fl_param ps) + len c4 + 1 + len c5 + 1).
+    set (o_b := o_vs + len (flat_map fl_vardecl vs)).
+    change (x_decl dd) with (GProc (the_proc dd)) in Ho, Hke, Hg, Hemit, Hsl.
+    cbn [roles_gdecl] in Ho. apply in_map_iff in Ho as [ro [Heq Ho]].
+    assert (Hown : pd_name (the_proc dd) = Some (x_ident (len c1 + 1) c2 xn)) by reflexivity.
+    rewrite Hown in Heq. cbn [option_map id_val x_ident] in Heq. injection Heq as Ho1 Ho2. subst owner ro.
+    inversion Hke as [ | d0 name L1 pes L2 Hname _ Hpar Hvar]; subst. rewrite Hown in Hname. injection Hname as <-.
+    cbn [fst snd id_val x_ident] in Hlk.
+    match type of Hlk with lookup G xn = Some (GProcE ?pe0) => set (pe := pe0) in * end.
+    assert (Hpp : pd_params (the_proc dd) = x_sep fl_param x_param o_ps ps) by reflexivity.
+    assert (Hpv : pd_vars (the_proc dd) = x_vardecls o_vs vs) by reflexivity.
+    assert (Hpb : pd_stmts (the_proc dd) = x_stmts o_b b) by reflexivity.
+    pose proof (x_params_ok ps o_ps) as Hps. pose proof (x_vardecls_ok vs o_vs) as Hvs. rewrite <- Hpp in Hps. rewrite <- Hpv in Hvs.
+    (* the declaring tokens of all locals lie in front of the statements *)
+    assert (HB : lt_bound o_b L2).
+    { apply (wf_vars_bound o_b _ _ _ _ _ Hvar); [|exact (var_ok_bound _ _ _ Hvs)].
+      apply (lt_bound_le (o_ps + len (fl_sep fl_param ps))); [unfold o_b, o_vs; lia|].
+      exact (wf_params_bound _ _ _ _ _ _ _ Hpar (lt_bound_nil _) (param_ok_bound _ _ _ Hps)). }
+    apply in_app_or in Ho as [Ho|Ho].
+    { (* its name *)
+      rewrite Hown in Ho. cbn [occs_name declares map id_val x_ident] in Ho. rewrite id_tok_x in Ho. destruct Ho as [Ho|[]]. injection Ho as <- <- <- <-.
+      exists (EntProc pe). split; [unfold binding; cbn [d d_table]; now rewrite Hlk|].
+      apply (Hemit (len c1 + 1 + len c2)); [lia | unfold dd; cbn [fl_decl]; leneq|].
+      cbn [decl_class]. apply class_proc_name. now rewrite Hown, x_name_token, Nat.eqb_refl. }
+    (* every other occurrence: where it sits, what precedes it, what its spelling resolves to *)
+    assert (Hsub' : forall y, lookup Gi y <> None -> lookup G y <> None).
+    { intros y Hy. destruct (lookup Gi y) as [v|] eqn:E; [|contradiction]. rewrite (Hsub _ _ E). discriminate. }
+    assert (Hfact : forall o, In o (occs_params (len pre) (pd_params (the_proc dd)) ++ occs_vars (len pre) (pd_vars (the_proc dd))) \/
+                              In o (occs_stmts (len pre) (pd_stmts (the_proc dd))) ->
+              exists want j, o_tok o = len pre + j /\ nth_error (fl_decl dd) j = Some (Ident (o_name o)) /\
+                global_kind (prev_kind_k None (firstn j (fl_decl dd))) = want (o_scope o) /\
+                res_ok G L2 (o_scope o) (want (o_scope o)) (o_name o)).
+    { intros o [Hin|Hin].
+      - pose proof (proc_header_hlocated c1 c2 xn c3 ps c4 c5 vs b c6 (len pre) None) as Hloc. cbv zeta in Hloc. fold dd in Hloc.
+        unfold wlocated in Hloc. rewrite Forall_forall in Hloc.
+        assert (Hino : In o (proc_header_occs (len pre) (the_proc dd))) by (unfold proc_header_occs; apply in_or_app; now right).
+        destruct (Hloc _ Hino) as [j [Hj1 [Hj2 Hj3]]]. exists is_gscope, j. repeat split; try assumption.
+        destruct (wf_params_occs _ _ _ _ _ _ Hpar) as [Hm1 Hp]. destruct (wf_vars_occs _ _ _ _ _ Hvar) as [Hm2 Hv].
+        assert (Hh : header_res G L2 o).
+        { apply in_app_or in Hin as [Hin|Hin].
+          - specialize (Hp (len pre)). rewrite Forall_forall in Hp. specialize (Hp _ Hin). unfold header_res in *.
+            destruct (o_scope o); [apply Hsub', Hp | apply Hm2, Hp].
+          - specialize (Hv (len pre)). rewrite Forall_forall in Hv. specialize (Hv _ Hin). unfold header_res in *.
+            destruct (o_scope o); [apply Hsub', Hv | exact Hv]. }
+        unfold header_res in Hh. destruct (o_scope o); cbn [is_gscope res_ok]; [exact Hh|].
+        unfold lt_lookup. destruct (lookup L2 (o_name o)); [discriminate | contradiction].
+      - pose proof (proc_body_located c1 c2 xn c3 ps c4 c5 vs b c6 (len pre) None) as Hloc. cbv zeta in Hloc. fold dd in Hloc.
+        unfold wlocated in Hloc. rewrite Forall_forall in Hloc.
+        destruct (Hloc _ Hin) as [j [Hj1 [Hj2 Hj3]]]. exists never, j. repeat split; try assumption.
+        unfold wt_bodies in Hbodies. rewrite Forall_forall in Hbodies. destruct (Hbodies _ Hg) as [_ Hwb].
+        unfold wt_body in Hwb. cbn [fst snd] in Hwb.
+        assert (Hoe : own_entry G (the_proc dd) (len pre) pe).
+        { exists (x_ident (len c1 + 1) c2 xn). repeat split; [exact Hlk]. }
+        pose proof (proj2 (wt_occs L2 G) _ (Hwb pe Hoe) (len pre)) as Hf. rewrite Forall_forall in Hf.
+        exact (Hf _ Hin). }
+    (* the handler on such a token *)
+    assert (Hfin : forall want j, k = len pre + j -> nth_error (fl_decl dd) j = Some (Ident x) -> len c1 + 1 + len c2 < j ->
+              global_kind (prev_kind_k None (firstn j (fl_decl dd))) = want sc -> res_ok G L2 sc (want sc) x ->
+              (forall e, binding d (Some xn) sc x = Some e -> class_of e j = (kind_of e, mod_of dcl)) ->
+              exists e, binding d (Some xn) sc x = Some e /\ In (tok, (kind_of e, mod_of dcl)) (emitted d)).
+    { intros want j Hkj Hj Hlt Hgk Hres Hmod.
+      destruct (res_entry d pe xn sc (want sc) x Hlk Hres) as [e [Hb He]]. exists e. split; [exact Hb|].
+      apply (Hemit j); [exact Hkj | apply nth_error_Some; congruence|].
+      cbn [decl_class]. rewrite <- (Hmod e Hb).
+      apply (class_proc_ident (the_proc dd) G _ j tok (x_ident (len c1 + 1) c2 xn) pe x e Hown Hlk eq_refl).
+      - rewrite Hown, x_name_token. apply Nat.eqb_neq. lia.
+      - exact (Hkind j x Hkj Hj).
+      - rewrite Hsl. unfold dd. rewrite (proc_type_position c1 c2 xn c3 ps c4 c5 vs b c6 j Hlt). fold dd. rewrite Hgk. exact He. }
+    apply in_app_or in Ho as [Ho|Ho]; [|apply in_app_or in Ho as [Ho|Ho]].
+    + (* parameters *)
+      assert (Hocc : In (k, x, sc) (occs_params (len pre) (pd_params (the_proc dd)))) by exact (roles_params_occs _ _ _ _ Ho).
+      destruct (Hfact _ (or_introl (in_or_app _ _ _ (or_introl Hocc)))) as [want [j [Hj1 [Hj2 [Hj3 Hj4]]]]].
+      unfold o_tok, o_name, o_scope in Hj1, Hj2, Hj3, Hj4. cbn [fst snd] in Hj1, Hj2, Hj3, Hj4.
+      assert (Hge : len pre + o_ps <= k).
+      { rewrite Hpp in Hocc.
+        exact (located_ge _ _ _ _ (wlocated_located _ _ _ _ _ (params_hlocated ps None (len pre) o_ps eq_refl)) Hocc). }
+      apply (Hfin want j Hj1 Hj2 ltac:(unfold o_ps in Hge; lia) Hj3 Hj4).
+      intros e Hb.
+      apply in_flat_map in Ho as [[pp off] [Hin Ho]]. cbn [fst snd] in Ho.
+      rewrite Forall_forall in Hps. destruct (Hps _ Hin) as (doc & r & name & [te o'] & inf & E & Hi0 & Hn0 & Hlo & Hhi).
+      cbn [fst snd] in E, Hlo, Hhi. subst pp. cbn [roles_paramdecl] in Ho. apply in_app_or in Ho as [Ho|Ho].
+      * (* the parameter's name *)
+        apply declares_in in Ho as [Ho ->]. cbn [occs_name] in Ho. destruct Ho as [Ho|[]]. injection Ho as Hk' <- <-.
+        destruct (wf_params_decl _ _ _ _ _ _ Hpar _ _ _ _ _ _ Hin) as [v [Hl1 [Hv1 Hv2]]].
+        pose proof (wf_vars_keep _ _ _ _ _ Hvar _ _ Hl1) as Hl2.
+        unfold binding in Hb. cbn [d d_table] in Hb. rewrite Hlk in Hb. unfold lt_lookup in Hb. cbn [pe pe_local] in Hb.
+        rewrite Hl2 in Hb. injection Hb as <-. cbn [entry_of_l class_of kind_of mod_of].
+        rewrite decl_mod_hit; [reflexivity | rewrite Hv1; exact Hn0 |].
+        unfold ve_decl_end. rewrite Hv1, Hv2. unfold shift_range, info_range. cbn [fst]. unfold id_tok in Hk'. lia.
+      * (* the names of its type *)
+        apply uses_in in Ho as [Ho ->]. cbn [occs_opt_texpr] in Ho.
+        pose proof (occs_texpr_global te (len pre + off + o')) as Hgl. rewrite Forall_forall in Hgl. specialize (Hgl _ Ho).
+        unfold o_scope in Hgl. cbn [fst snd] in Hgl. subst sc.
+        apply (class_use d pe xn ScGlobal x e j 0 Hlk Hb). intros [=].
+    + (* variable declarations *)
+      assert (Hocc : In (k, x, sc) (occs_vars (len pre) (pd_vars (the_proc dd)))) by exact (roles_vars_occs _ _ _ _ Ho).
+      destruct (Hfact _ (or_introl (in_or_app _ _ _ (or_intror Hocc)))) as [want [j [Hj1 [Hj2 [Hj3 Hj4]]]]].
+      unfold o_tok, o_name, o_scope in Hj1, Hj2, Hj3, Hj4. cbn [fst snd] in Hj1, Hj2, Hj3, Hj4.
+      assert (Hge : len pre + o_vs <= k).
+      { rewrite Hpv in Hocc.
+        exact (located_ge _ _ _ _ (wlocated_located _ _ _ _ _ (vardecls_hlocated vs None (len pre) o_vs)) Hocc). }
+      apply (Hfin want j Hj1 Hj2 ltac:(unfold o_vs, o_ps in Hge; lia) Hj3 Hj4).
+      intros e Hb.
+      apply in_flat_map in Ho as [[pp off] [Hin Ho]]. cbn [fst snd] in Ho.
+      rewrite Forall_forall in Hvs. destruct (Hvs _ Hin) as (doc & name & [te o'] & inf & E & Hi0 & Hn0 & Hlo & Hhi).
+      cbn [fst snd] in E, Hlo, Hhi. subst pp. cbn [roles_vardecl] in Ho. apply in_app_or in Ho as [Ho|Ho].
+      * (* the variable's name *)
+        apply declares_in in Ho as [Ho ->]. cbn [occs_name] in Ho. destruct Ho as [Ho|[]]. injection Ho as Hk' <- <-.
+        destruct (wf_vars_decl _ _ _ _ _ Hvar _ _ _ _ _ Hin) as [v [Hl2 [Hv1 Hv2]]].
+        unfold binding in Hb. cbn [d d_table] in Hb. rewrite Hlk in Hb. unfold lt_lookup in Hb. cbn [pe pe_local] in Hb.
+        rewrite Hl2 in Hb. injection Hb as <-. cbn [entry_of_l class_of kind_of mod_of].
+        rewrite decl_mod_hit; [reflexivity | rewrite Hv1; exact Hn0 |].
+        unfold ve_decl_end. rewrite Hv1, Hv2. unfold shift_range, info_range. cbn [fst]. unfold id_tok in Hk'. lia.
+      * (* the names of its type *)
+        apply uses_in in Ho as [Ho ->]. cbn [occs_opt_texpr] in Ho.
+        pose proof (occs_texpr_global te (len pre + off + o')) as Hgl. rewrite Forall_forall in Hgl. specialize (Hgl _ Ho).
+        unfold o_scope in Hgl. cbn [fst snd] in Hgl. subst sc.
+        apply (class_use d pe xn ScGlobal x e j 0 Hlk Hb). intros [=].
+    + (* statements *)
+      apply uses_in in Ho as [Ho ->]. fold (occs_stmts (len pre) (pd_stmts (the_proc dd))) in Ho.
+      destruct (Hfact _ (or_intror Ho)) as [want [j [Hj1 [Hj2 [Hj3 Hj4]]]]]. unfold o_tok, o_name, o_scope in *. cbn [fst snd] in *.
+      assert (Hge : len pre + o_b <= k).
+      { rewrite Hpb in Ho. exact (located_ge _ _ _ _ (proj2 stmt_located b (len pre) o_b) Ho). }
+      apply (Hfin want j Hj1 Hj2 ltac:(unfold o_b, o_vs, o_ps in Hge; lia) Hj3 Hj4).
+      intros e Hb. apply (class_use d pe xn sc x e j o_b Hlk Hb). intros _. split; [exact HB | lia].
+Qed.
+
+(* ---------------------------------------------------------------------------------------- *)
+(* the theorems                                                                              *)
+
+(* the document of a valid program satisfies the well-formedness predicate of SemTokProofs.v:
+   all the all-documents theorems (no panic, coincide, increasing, disjoint, lexical classes,
+   completeness) hold for it unconditionally *)
+Theorem valid_doc_wf p G t toks d :
+  prog_ok p = true -> well_typed (expected p) G -> lex t = Some toks -> map tk toks = flatten p ++ [Eof] ->
+  new_doc_res t = ODone d ->
+  decls_names_b (d_toks d) (pg_decls (d_ast d)) = true /\ doc_wf_b d = true.
+Proof.
+  intros Hok Hwt Hlex Hk Hd. pose proof (new_doc_wf t d (new_doc_of_res t d Hd)) as Hwf.
+  rewrite (valid_doc p G t toks d Hok Hwt Hlex Hk Hd) in *. cbn [d_toks d_ast expected pg_decls] in *.
+  assert (Hn : decls_names_b toks (x_decls 0 (a_decls p)) = true).
+  { apply (x_decls_names toks (a_decls p) 0 [] (cm (a_ceof p) ++ [Eof])); [|reflexivity].
+    rewrite Hk. unfold flatten. cbn [app]. now rewrite <- app_assoc. }
+  split; [exact Hn | now rewrite Hwf].
+Qed.
+
+Lemma sorted_pos_unique l :
+  StronglySorted (fun a b => pos_lt (at_pos a) (at_pos b)) l ->
+  forall a b, In a l -> In b l -> at_pos a = at_pos b -> a = b.
+Proof.
+  induction 1 as [|x l HS IH HF]; intros a b Ha Hb Hab; [contradiction|]. rewrite Forall_forall in HF.
+  destruct Ha as [<-|Ha], Hb as [<-|Hb]; [reflexivity | | |exact (IH a b Ha Hb Hab)].
+  - specialize (HF _ Hb). rewrite Hab in HF. now apply pos_lt_irrefl in HF.
+  - specialize (HF _ Ha). rewrite Hab in HF. now apply pos_lt_irrefl in HF.
+Qed.
+
+(* C15, the binding half: in a valid program every identifier occurrence is reported with the kind of
+   the entity it is bound to and the declaration modifier exactly on the declaring occurrence; no
+   other token is reported at its position *)
+Theorem semtok_valid (p : aprog) (G : gtable) (t : text) (toks : list token) (d : doc) :
+  prog_ok p = true -> well_typed (expected p) G ->
+  lex t = Some toks -> map tk toks = flatten p ++ [Eof] ->
+  new_doc_res t = ODone d ->
+  exists data, semantic_tokens d = SOk data /\
+    forall owner k x sc dcl, In (owner, ((k, x, sc), dcl)) (program_roles (expected p)) ->
+    forall tok, nth_error toks k = Some tok ->
+    exists e, binding d owner sc x = Some e /\
+      let a := tok_view t (tok, (kind_of e, mod_of dcl)) in
+      In a (decode data) /\ forall b, In b (decode data) -> at_pos b = at_pos a -> b = a.
+Proof.
+  intros Hok Hwt Hlex Hk Hd. destruct (valid_doc_wf p G t toks d Hok Hwt Hlex Hk Hd) as [_ Hwf].
+  destruct (semtok_no_panic d Hwf) as [data Hdata]. exists data. split; [exact Hdata|].
+  destruct (semtok_coincide d data Hwf Hdata) as [Hdec _].
+  pose proof (semtok_increasing d data Hwf Hdata) as Hinc.
+  intros owner k x sc dcl Hin tok Hn.
+  pose proof (valid_doc p G t toks d Hok Hwt Hlex Hk Hd) as Ed.
+  destruct (class_valid p G t toks Hwt Hk owner k x sc dcl Hin tok Hn) as [e [Hb He]]. rewrite <- Ed in Hb, He.
+  exists e. split; [exact Hb|]. cbv zeta.
+  assert (Ha : In (tok_view t (tok, (kind_of e, mod_of dcl))) (decode data)).
+  { rewrite Hdec. replace (d_text d) with t by (rewrite Ed; reflexivity). now apply in_map. }
+  split; [exact Ha|]. intros b Hb' Hpos. exact (sorted_pos_unique _ Hinc b _ Hb' Ha Hpos).
+Qed.
